@@ -367,3 +367,62 @@ Proof.
     rewrite (tlvs_decodes l C post _ Hl1); [reflexivity|].
     pose proof (enc_tlvs_len l). lia.
 Qed.
+
+(* ---- a whole layout ---- *)
+Definition field_of (r : rr) (key : Z) : fval := match get_field r key with Some v => v | None => FU8 0 end.
+
+Definition lay_vals (lay : list (Z * fkind)) (r : rr) : list (Z * fval) :=
+  map (fun kv => (fst kv, dec_val (snd kv) (field_of r (fst kv)))) lay.
+
+Definition fields_wf (lay : list (Z * fkind)) (r : rr) : Prop :=
+  Forall (fun kv => exists v, get_field r (fst kv) = Some v /\ fval_wf (snd kv) v) lay.
+
+Fixpoint last_ok (lay : list (Z * fkind)) : bool :=
+  match lay with
+  | [] => true
+  | (_, k) :: rest => (negb (last_kind k) || match rest with [] => true | _ => false end) && last_ok rest
+  end.
+
+Lemma wfields_spec : forall lay r b nlp b' nlp' L C,
+  wfields wfixed 0 lay r (b, nlp) = Ok (b', nlp') ->
+  live_is b L -> length C = length L -> olp_ok C nlp -> fields_wf lay r -> last_ok lay = true ->
+  exists D, live_is b' (L ++ D) /\ bytes_ok D /\ olp_ok (C ++ D) nlp' /\ (nlp = None -> nlp' = None) /\
+    forall post, exists used,
+      ref_fields (C ++ D ++ post) lay (length C) (length C + length D) = Some (lay_vals lay r, used) /\
+      (used <= length C + length D)%nat /\
+      (Nat.eqb used (length C + length D) || existsb (fun kv => is_tlvs (snd kv)) lay = true).
+Proof.
+  induction lay as [|[key k] rest IH]; intros r b nlp b' nlp' L C H Hb HC Hol Hwf Hlast.
+  - cbn in H. injection H as <- <-. exists []. rewrite !app_nil_r. split; [exact Hb|]. split; [constructor|]. split; [exact Hol|].
+    split; [auto|]. intros post. exists (length C). cbn [ref_fields lay_vals map length]. rewrite Nat.add_0_r.
+    split; [reflexivity|]. split; [lia|]. rewrite Nat.eqb_refl. reflexivity.
+  - cbn [wfields] in H. destruct (wfield wfixed 0 k key r (b, nlp)) as [[b1 nlp1]| |] eqn:E1; cbn [bind] in H; try discriminate.
+    inversion Hwf as [|? ? Hf1 Hwf']; subst. destruct Hf1 as (v & Hg & Hv). cbn [fst snd] in Hg, Hv.
+    cbn [last_ok] in Hlast. apply andb_true_iff in Hlast. destruct Hlast as (Hl1 & Hl2).
+    destruct (wfield_spec k key r v b nlp b1 nlp1 L C Hg Hv E1 Hb HC Hol) as (X & Hb1 & HXb & Hol1 & Hn1 & Hdec).
+    destruct (IH r b1 nlp1 b' nlp' (L ++ X) (C ++ X) H Hb1 ltac:(rewrite !app_length; lia) Hol1 Hwf' Hl2)
+      as (D' & Hb' & HDb & Hol' & Hn' & Hdec').
+    exists (X ++ D'). split; [rewrite app_assoc; exact Hb'|]. split; [apply bytes_ok_app; assumption|].
+    split; [rewrite app_assoc; exact Hol'|]. split; [auto|].
+    intros post. destruct (Hdec' post) as (used' & R' & Hu' & Hx').
+    assert (Hlen : (length C + length (X ++ D') = length (C ++ X) + length D')%nat) by (rewrite !app_length; lia).
+    assert (Hfv : field_of r key = v) by (unfold field_of; rewrite Hg; reflexivity).
+    cbn [ref_fields lay_vals map fst snd]. rewrite Hfv.
+    rewrite <- app_assoc. rewrite Hlen.
+    assert (Hlk : last_kind k = true -> D' = []).
+    { intros Hk. rewrite Hk in Hl1. cbn [negb orb] in Hl1. destruct rest; [|discriminate Hl1].
+      cbn in H. injection H as <- <-. destruct Hb1 as (_ & _ & G1). destruct Hb' as (_ & _ & G2).
+      rewrite G1 in G2. rewrite <- (app_nil_r (L ++ X)) in G2 at 1. apply app_inv_head in G2. symmetry. exact G2. }
+    rewrite (Hdec (length (C ++ X) + length D')%nat (D' ++ post)).
+    + destruct (is_tlvs k) eqn:Et.
+      * (* tlvs: the last field *)
+        assert (Hk : last_kind k = true) by (destruct k; try discriminate Et; reflexivity).
+        specialize (Hlk Hk). subst D'. rewrite Hk in Hl1. cbn [negb orb] in Hl1. destruct rest; [|discriminate Hl1].
+        cbn [ref_fields lay_vals map existsb snd]. rewrite Et. exists (length C).
+        split; [reflexivity|]. split; [rewrite app_length; lia|]. apply orb_true_r.
+      * fold (lay_vals rest r). rewrite app_length in R'. rewrite app_assoc, app_length. rewrite R'.
+        exists used'. split; [reflexivity|]. split; [rewrite app_length in Hu'; lia|].
+        cbn [existsb snd]. rewrite Et. cbn [orb]. rewrite app_length in Hx'. exact Hx'.
+    + rewrite app_length. lia.
+    + intros Hk. rewrite (Hlk Hk). rewrite app_length. cbn [length]. lia.
+Qed.
